@@ -35,7 +35,7 @@ fn q_ms_compose_scalar() {
     let ri = a..=a;
     assert!(ri.heap_size() == 0);
     let refv: &u16 = &b;
-    assert!(refv.heap_size() == 0 && refv.mem_size() == size_of::<&u16>());
+    assert!(<&u16 as HeapSize>::heap_size(&refv) == 0 && <&u16 as MemSize>::mem_size(&refv) == size_of::<&u16>());
     let t10 = (a, a, a, a, a, a, a, a, a, a);
     assert!(t10.heap_size() == 0 && t10.mem_size() == 10);
 }
